@@ -146,6 +146,9 @@ class SymBytes:
     def tobytes(self):
         return self
 
+    def tolist(self):
+        return self.items()
+
     def __sx_to_int__(self, byteorder='big', signed=False):
         return bytes_to_int(self, byteorder, signed)
 
